@@ -24,19 +24,19 @@ var loopPolicies = map[string]loopPolicy{
 		"switch-default(int32)": "CycloneDX components carry only purl and cpe",
 		"not:empty(CPE)":        "one CPE per component: 2.3 wins over 2.2",
 		"empty-value":           "an empty CPE 2.3 value is indistinguishable from an absent one in CycloneDX (omitempty) and must not erase a CPE 2.2"}},
-	"serializers.clearAutoRefs/comps": {skips: map[string]string{
+	"serializers.clearAutoRefs/*[]cyclonedx.Component": {skips: map[string]string{
 		"not:predicate(strings.HasPrefix)": "only generated references are erased",
 		"not:predicate(strings.Contains)":  "only generated references flagged auto are erased"}},
 	"serializers.(*CDX).dependencies/To": {skips: map[string]string{"dedupe": "a dependency target is listed once per edge; the key is the target id itself"}},
 	// --- CycloneDX reader ---
-	"unserializers.(*CDX).componentToNode/Hashes":            {skips: map[string]string{"dedupe": "the model holds one value per hash algorithm; the key is the algorithm number"}},
-	"unserializers.(*CDX).licenseChoicesToLicenseList/lcs":   {skips: map[string]string{"empty(Expression)&empty(ID)": "a choice with neither expression nor licence id is not representable"}},
-	"unserializers.(*CDX).licenseChoicesToLicenseString/lcs": {skips: map[string]string{"empty(Expression)&empty(ID)": "a choice with neither expression nor licence id is not representable"}},
+	"unserializers.(*CDX).componentToNode/Hashes":                            {skips: map[string]string{"dedupe": "the model holds one value per hash algorithm; the key is the algorithm number"}},
+	"unserializers.(*CDX).licenseChoicesToLicenseList/*cyclonedx.Licenses":   {skips: map[string]string{"empty(Expression)&empty(ID)": "a choice with neither expression nor licence id is not representable"}},
+	"unserializers.(*CDX).licenseChoicesToLicenseString/*cyclonedx.Licenses": {skips: map[string]string{"empty(Expression)&empty(ID)": "a choice with neither expression nor licence id is not representable"}},
 	// --- node-list operations ---
 	"sbom.(*NodeList).Add/RootElements":         {skips: map[string]string{"present-in-index(roots)": "the identifier is already a root of the receiver"}},
 	"sbom.(*NodeList).Union/RootElements":       {skips: map[string]string{"present-in-index(roots)": "the identifier is already a root of the result"}},
 	"sbom.(*NodeList).Union/To":                 {skips: map[string]string{"predicate(sbom.(*Edge).PointsTo)": "the merged edge already points to the target"}},
-	"sbom.(*NodeList).Intersect/ni1":            {skips: map[string]string{"absent-from-index(nodes)": "a node absent from the other operand does not survive: that is the intersection"}},
+	"sbom.(*NodeList).Intersect/indexNodes()":   {skips: map[string]string{"absent-from-index(nodes)": "a node absent from the other operand does not survive: that is the intersection"}},
 	"sbom.(*NodeList).Intersect/To":             {skips: map[string]string{"present-in-index": "the merged edge already points to the target"}},
 	"sbom.(*NodeList).cleanEdges/Edges":         {skips: map[string]string{"absent-from-index(nodes)": "the edge's source is not a node of the list: dropping it is the normalisation"}},
 	"sbom.(*NodeList).cleanEdges/To":            {skips: map[string]string{"absent-from-index(nodes)": "the target is not a node of the list: dropping it is the normalisation"}},
@@ -44,22 +44,22 @@ var loopPolicies = map[string]loopPolicy{
 	"sbom.(*NodeList).RemoveNodes/Nodes":        {skips: map[string]string{"present-in-index": "the identifier is in the removal set"}},
 	"sbom.(*NodeList).RemoveNodes/RootElements": {skips: map[string]string{"present-in-index": "the identifier is in the removal set"}},
 	"sbom.(*NodeList).RelateNodeListAtID/Nodes": {skips: map[string]string{"present-in-index(nodes)": "a node with that identifier is already in the list (documented de-duplication)"}},
-	"sbom.(*Edge).AddDestinationById/ids":       {skips: map[string]string{"dedupe": "a destination is added only once; the key is the identifier itself"}},
+	"sbom.(*Edge).AddDestinationById/[]string":  {skips: map[string]string{"dedupe": "a destination is added only once; the key is the identifier itself"}},
 	// --- lookups and matching (C16): a skip is the criterion itself ---
 	"sbom.(*NodeList).GetMatchingNode/Hashes": {skips: map[string]string{"absent-from-index": "no node of the list carries that algorithm:value pair"}},
 	"sbom.(*NodeList).GetMatchingNode/[]*sbom.Node": {skips: map[string]string{
 		"dedupe(identity)":                        "the same node, reached through another of the probe's hashes, is collected once; the key is the node itself so distinct nodes sharing an identifier stay distinct",
 		"not:predicate(sbom.(*Node).HashesMatch)": "the candidate's common hash algorithms do not all agree: that is the matching rule"}},
-	"sbom.(*NodeList).GetMatchingNode/foundNodes": {skips: map[string]string{"not:comparison": "the purl tie-break keeps only hash matches carrying the probe's purl", "empty-value": "a hash match without purl cannot break the tie"}},
-	"sbom.(*NodeList).indexNodesByHash/Hashes":    {skips: map[string]string{"empty-value": "an empty digest identifies nothing"}},
-	"sbom.(*Node).HashesMatch/th":                 {skips: map[string]string{"absent-from-index": "only algorithms present on both sides are compared"}, exits: map[string]string{"return-value": "for-all test: the first disagreement decides"}},
-	"sbom.(*NodeList).GetNodesByName/Nodes":       {skips: map[string]string{"not:comparison": "the name criterion"}},
-	"sbom.(*NodeList).GetNodesByIdentifier/Nodes": {skips: map[string]string{"nil-field(Identifiers)": "a node without identifiers cannot match", "absent-from-index": "the node has no identifier of the requested type", "not:comparison": "the identifier value criterion"}},
-	"sbom.(*NodeList).GetNodesByPurlType/Nodes":   {skips: map[string]string{"not:predicate(strings.HasPrefix)": "the purl type criterion (shape checked by lookup-criterion)"}},
-	"sbom.(*NodeList).GetNodesByPurlType/Edges":   {skips: map[string]string{"absent-from-index(nodes)": "edges are kept only when their source is a selected node"}},
-	"sbom.(*NodeList).reconnectOrphanNodes/Nodes": {skips: map[string]string{"present-in-index(roots)": "already a root", "present-in-index(edges)": "the node is the source of an edge, so not an orphan"}},
-	"sbom.(*NodeList).GetRootNodes/Nodes":         {skips: map[string]string{"absent-from-index": "the root-membership criterion"}},
+	"sbom.(*NodeList).GetMatchingNode/map[*sbom.Node]struct{}": {skips: map[string]string{"not:comparison": "the purl tie-break keeps only hash matches carrying the probe's purl", "empty-value": "a hash match without purl cannot break the tie"}},
+	"sbom.(*NodeList).indexNodesByHash/Hashes":                 {skips: map[string]string{"empty-value": "an empty digest identifies nothing"}},
+	"sbom.(*Node).HashesMatch/map[int32]string":                {skips: map[string]string{"absent-from-index": "only algorithms present on both sides are compared"}, exits: map[string]string{"return-value": "for-all test: the first disagreement decides"}},
+	"sbom.(*NodeList).GetNodesByName/Nodes":                    {skips: map[string]string{"not:comparison": "the name criterion"}},
+	"sbom.(*NodeList).GetNodesByIdentifier/Nodes":              {skips: map[string]string{"nil-field(Identifiers)": "a node without identifiers cannot match", "absent-from-index": "the node has no identifier of the requested type", "not:comparison": "the identifier value criterion"}},
+	"sbom.(*NodeList).GetNodesByPurlType/Nodes":                {skips: map[string]string{"not:predicate(strings.HasPrefix)": "the purl type criterion (shape checked by lookup-criterion)"}},
+	"sbom.(*NodeList).GetNodesByPurlType/Edges":                {skips: map[string]string{"absent-from-index(nodes)": "edges are kept only when their source is a selected node"}},
+	"sbom.(*NodeList).reconnectOrphanNodes/Nodes":              {skips: map[string]string{"present-in-index(roots)": "already a root", "present-in-index(edges)": "the node is the source of an edge, so not an orphan"}},
+	"sbom.(*NodeList).GetRootNodes/Nodes":                      {skips: map[string]string{"absent-from-index": "the root-membership criterion"}},
 	// --- SPDX3 (beta) writer ---
-	"beta.(*SPDX3).Serialize/Nodes":           {skips: map[string]string{"switch-default(sbom.Node_NodeType)": "a node kind outside {PACKAGE, FILE} is an unknown enum number"}},
-	"beta.purposeStringsFromPurpose/purposes": {skips: map[string]string{"switch-default(sbom.Purpose)": "unknown purpose number"}},
+	"beta.(*SPDX3).Serialize/Nodes":                 {skips: map[string]string{"switch-default(sbom.Node_NodeType)": "a node kind outside {PACKAGE, FILE} is an unknown enum number"}},
+	"beta.purposeStringsFromPurpose/[]sbom.Purpose": {skips: map[string]string{"switch-default(sbom.Purpose)": "unknown purpose number"}},
 }
